@@ -28,6 +28,9 @@ enum Kind {
     Nested,
     /// yields a few times, then records a second stamp
     Yield,
+    /// records, then stops its own arbiter through `Arbiter::current()` and sends one more function through the same
+    /// handle: sent after stop() returned, it must never start
+    StopSelf,
 }
 
 #[derive(Clone, Copy, Debug, PartialEq, Eq)]
@@ -104,7 +107,8 @@ fn gen_from_seed(seed: u64, small: bool) -> Scn {
     }
     let senders = 1 + r.usize(if small { 2 } else { 4 });
     let phases = 1 + r.usize(if small { 2 } else { 3 });
-    let kinds = [Kind::Complete, Kind::Complete, Kind::Pend, Kind::Panic, Kind::Nested, Kind::Yield];
+    let kinds = [Kind::Complete, Kind::Complete, Kind::Pend, Kind::Panic, Kind::Nested, Kind::Nested, Kind::Yield];
+    let self_stop = r.chance(1, 8);
     let mut budget = if small { 6 } else { 12 };
     let mut ops = Vec::new();
     for _ in 0..phases {
@@ -126,6 +130,19 @@ fn gen_from_seed(seed: u64, small: bool) -> Scn {
         }
         ops.push(per);
     }
+    if self_stop {
+        // one task of the scenario stops the arbiter from the inside
+        let slots: Vec<(usize, usize, usize)> = ops
+            .iter()
+            .enumerate()
+            .flat_map(|(p, per)| per.iter().enumerate().flat_map(move |(s, v)| (0..v.len()).map(move |k| (p, s, k))))
+            .filter(|(p, s, k)| ops[*p][*s][*k] != Op::Stop)
+            .collect();
+        if !slots.is_empty() {
+            let (p, s, k) = slots[r.usize(slots.len())];
+            ops[p][s][k] = Op::Spawn(Kind::StopSelf);
+        }
+    }
     Scn { seed, small, system_arbiter, busy, prior_system, ops }
 }
 
@@ -146,6 +163,8 @@ struct TaskRec {
     probe_thread: AtomicU64,
     /// result of `Arbiter::current().spawn_fn(..)` inside the task: 0 unknown, 1 true, 2 false
     probe_accepted: AtomicU64,
+    /// start sequence number of the probe
+    probe_seq: AtomicU64,
     dropped: AtomicBool,
 }
 
@@ -183,6 +202,7 @@ fn task_future(sh: Arc<Shared>, id: usize, kind: Kind) -> impl std::future::Futu
             Kind::Nested => {
                 let sh2 = sh.clone();
                 let ok = Arbiter::current().spawn_fn(move || {
+                    sh2.tasks[id].probe_seq.store(sh2.start_seq.fetch_add(1, Relaxed) + 1, Relaxed);
                     sh2.tasks[id].probe_thread.store(thread_hash(), Relaxed);
                 });
                 sh.tasks[id].probe_accepted.store(if ok { 1 } else { 2 }, Relaxed);
@@ -191,6 +211,15 @@ fn task_future(sh: Arc<Shared>, id: usize, kind: Kind) -> impl std::future::Futu
                 for _ in 0..3 {
                     tokio::task::yield_now().await;
                 }
+            }
+            Kind::StopSelf => {
+                let sh2 = sh.clone();
+                let cur = Arbiter::current();
+                cur.stop();
+                let ok = cur.spawn_fn(move || {
+                    sh2.tasks[id].probe_thread.store(thread_hash(), Relaxed);
+                });
+                sh.tasks[id].probe_accepted.store(if ok { 1 } else { 2 }, Relaxed);
             }
         }
     }
@@ -204,6 +233,7 @@ fn task_fn(sh: Arc<Shared>, id: usize, kind: Kind) -> impl FnOnce() + Send + 'st
             Kind::Nested => {
                 let sh2 = sh.clone();
                 let ok = Arbiter::current().spawn_fn(move || {
+                    sh2.tasks[id].probe_seq.store(sh2.start_seq.fetch_add(1, Relaxed) + 1, Relaxed);
                     sh2.tasks[id].probe_thread.store(thread_hash(), Relaxed);
                 });
                 sh.tasks[id].probe_accepted.store(if ok { 1 } else { 2 }, Relaxed);
@@ -244,6 +274,8 @@ struct Seen {
     prior_system_cases: u64,
     current_arbiter_probes: u64,
     stops_on_system_arbiter: u64,
+    self_stops: u64,
+    own_thread_fifo_pairs: u64,
 }
 
 fn violated(sig: &str, desc: String) -> Outcome {
@@ -345,8 +377,10 @@ fn scenario(scn: &Scn, seen: &mut Seen) -> Outcome {
         let system_arbiter = scn.system_arbiter;
         let seed = scn.seed;
         let busy = scn.busy;
-        thread::spawn(move || -> Result<(bool, u64, u64), &'static str> {
-            let mut busy_phases = 0u64;
+        let self_stop = scn.ops.iter().flatten().flatten().any(|op| *op == Op::Spawn(Kind::StopSelf));
+        let self_stop_phase = scn.ops.iter().position(|per| per.iter().flatten().any(|op| *op == Op::Spawn(Kind::StopSelf)));
+        thread::spawn(move || -> Result<(bool, u64, Vec<bool>), &'static str> {
+            let mut busy_phases: Vec<bool> = Vec::new();
             // identity probe
             {
                 let sh2 = sh.clone();
@@ -367,12 +401,15 @@ fn scenario(scn: &Scn, seen: &mut Seen) -> Outcome {
                 // keep the loop busy while this phase's commands are queued
                 let release = Arc::new(AtomicBool::new(false));
                 let mut blocked = false;
-                if busy && !stop_issued.load(Relaxed) {
+                // (a task that stops the arbiter from the inside may already have run once its phase was sent: later phases
+                // are sent to an arbiter that may be gone, and are not held)
+                if busy && !stop_issued.load(Relaxed) && self_stop_phase.map(|sp| p <= sp).unwrap_or(true) {
                     let entered = Arc::new(AtomicBool::new(false));
                     let (e2, r2) = (entered.clone(), release.clone());
                     let ok = handle.spawn_fn(move || {
                         e2.store(true, Relaxed);
-                        while !r2.load(Relaxed) {
+                        let t0 = std::time::Instant::now();
+                        while !r2.load(Relaxed) && t0.elapsed() < Duration::from_secs(20) {
                             thread::yield_now();
                         }
                     });
@@ -388,8 +425,8 @@ fn scenario(scn: &Scn, seen: &mut Seen) -> Outcome {
                         }
                     }
                     blocked = true;
-                    busy_phases += 1;
                 }
+                busy_phases.push(blocked);
                 for (s, ops) in per.iter().enumerate() {
                     let (sh, handle, ops, barrier) = (sh.clone(), handle.clone(), ops.clone(), barrier.clone());
                     let (stop_issued, first_stop_phase) = (stop_issued.clone(), first_stop_phase.clone());
@@ -428,7 +465,7 @@ fn scenario(scn: &Scn, seen: &mut Seen) -> Outcome {
             }
             let stopped = stop_issued.load(Relaxed);
             // sentinel: by FIFO, once it has run everything accepted before it has started
-            if !stopped {
+            if !stopped && !self_stop {
                 let sh2 = sh.clone();
                 sh.tasks[sentinel_of(&sh)].ticket.store(sh.ticket.fetch_add(1, Relaxed) + 1, Relaxed);
                 let ok = handle.spawn_fn(move || {
@@ -488,11 +525,15 @@ fn scenario(scn: &Scn, seen: &mut Seen) -> Outcome {
         Err(_) => return violated("C10:panic", "coordinator panicked".into()),
     };
     jitter(&mut rng);
-    seen.busy_phases += busy_phases;
+    seen.busy_phases += busy_phases.iter().filter(|b| **b).count() as u64;
+    let self_stop = scn.ops.iter().flatten().flatten().any(|op| *op == Op::Spawn(Kind::StopSelf));
+    // a stop somewhere in the history: sent by a sender thread, or by a task from the inside
+    let stopped_by_sender = stopped;
+    let stopped = stopped || self_stop;
     if scn.ops.iter().flatten().any(|v| v.len() > 100) {
         seen.burst_cases += 1;
     }
-    if stopped && scn.system_arbiter {
+    if stopped_by_sender && scn.system_arbiter {
         seen.stops_on_system_arbiter += 1;
     }
     // the system has run: the probe sent through the system thread's Arbiter::current() ran there (unless the system
@@ -581,6 +622,35 @@ fn scenario(scn: &Scn, seen: &mut Seen) -> Outcome {
             }
             if t.kind == Some(Kind::Panic) {
                 seen.panicking_tasks += 1;
+            }
+            if t.kind == Some(Kind::StopSelf) {
+                seen.self_stops += 1;
+                if t.probe_thread.load(Relaxed) != 0 {
+                    return violated(
+                        "C10:task-started-after-stop",
+                        format!("task {id} stopped its own arbiter through Arbiter::current() and then sent a function through the same handle: the function started (spawn_fn returned {})", t.probe_accepted.load(Relaxed) == 1),
+                    );
+                }
+            }
+            // FIFO includes commands sent from the arbiter's own thread: in a phase sent while the arbiter was held busy,
+            // every command of that phase was sent (its sender joined) before the arbiter ran any of them, so before a
+            // nested probe was sent; the probe therefore starts after every one of them that starts at all
+            if t.kind == Some(Kind::Nested) && busy_phases.get(t.phase as usize).copied().unwrap_or(false) {
+                let ps = t.probe_seq.load(Relaxed);
+                if ps != 0 {
+                    for (xid, x) in sh.tasks.iter().enumerate().skip(1) {
+                        if x.kind.is_none() || x.phase != t.phase || xid == id {
+                            continue;
+                        }
+                        seen.own_thread_fifo_pairs += 1;
+                        if x.entries.load(Relaxed) == 1 && x.start_seq.load(Relaxed) > ps {
+                            return violated(
+                                "C10:fifo-violated",
+                                format!("task {xid} was sent by another thread before the arbiter ran task {id}; the function task {id} sent through Arbiter::current() started before task {xid} (overtook the queue)"),
+                            );
+                        }
+                    }
+                }
             }
             if t.kind == Some(Kind::Pend) {
                 // join() returned (or the system ended): the loop and its runtime are gone, parked tasks were dropped
@@ -747,6 +817,8 @@ fn merge(a: &mut Seen, b: &Seen) {
     a.prior_system_cases += b.prior_system_cases;
     a.current_arbiter_probes += b.current_arbiter_probes;
     a.stops_on_system_arbiter += b.stops_on_system_arbiter;
+    a.self_stops += b.self_stops;
+    a.own_thread_fifo_pairs += b.own_thread_fifo_pairs;
 }
 
 pub fn run(args: &Args, rep: &mut Report) {
@@ -836,4 +908,6 @@ pub fn run(args: &Args, rep: &mut Report) {
     rep.add("obs_prior_system_on_thread_scenarios", seen.prior_system_cases);
     rep.add("obs_current_arbiter_probes_on_system_thread", seen.current_arbiter_probes);
     rep.add("obs_scenarios_with_stop_on_system_arbiter", seen.stops_on_system_arbiter);
+    rep.add("obs_tasks_stopping_their_own_arbiter", seen.self_stops);
+    rep.add("obs_own_thread_fifo_pairs", seen.own_thread_fifo_pairs);
 }
